@@ -1,13 +1,22 @@
 """C02 — memory reclamation is invisible: frame resets, pool slot recycling and the relocation of
 return values never change what a program prints or how it ends.
 
-Proof: lean/NaijaVerif/Props/C02.lean (model Mem: region-tagged strings, poisoned reads, the store
-paths / reset points / temporaries of src/runtime.rs; `erase (runMem p) = run p`).
-Tie: family `mem` — `m` lines (memory-event trace of the real run vs the model's, needs the trace hook).
+Proof: lean/NaijaVerif/Props/C02.lean over the model lean/NaijaVerif/Model/Mem.lean (`MemEval`: an
+abstract-interpretation evaluator of the memory discipline of src/runtime.rs over the real annotated
+AST; values are shapes with storage handles, every data-dependent decision comes from universally
+quantified oracle streams): T1 no read of recycled storage, T2 only live pool slots are released
+(the hypothesis of C12), T3 erasure (the run with reclamation and the run without observe and print
+the same contents), plus `c02_pinned_is_unsafe` (the pinned discipline, kept as a switch, provably
+reads recycled storage on the D-02 witnesses).
+Tie: family `mem` — `m` lines: the memory-event trace of the real run (hook `mem_trace_*`: frame
+marks/resets, pool allocs/frees with class+index, promotes, clone-on-read copies, relocation staging,
+scope pops, control decisions) against the event list MemEval produces on the annotated AST with the
+oracle streams extracted from that trace; compared line by line.
 Implementation-level oracle (needs no model): `d` lines — the same program run by the real crate with
 `Runtime::new(arena, Some(frame))` and with `Runtime::new(arena, None)` in the debug build (freed
-memory is poisoned); outputs and ending have to be equal.  Streams: corpus (the D-02 witnesses), the
-enumerated product value source x store path x reclamation event x observation, random programs."""
+memory is poisoned); outputs and ending have to be equal.  Streams: corpus (the D-02 witnesses as `d`
+lines, corpus/C02/src/*.ns as trace programs), the enumerated product value source x store path x
+reclamation event x observation, random programs."""
 import glob
 import os
 import re
@@ -102,8 +111,16 @@ def random_lines(ck, n, shift=0):
     return nvh_lines(ck, ["gen", "--seed", ck.seed + shift, "--n", n], "gen")
 
 
-def trace_lines(ck, n, shift=0):
-    return nvh_lines(ck, ["gen", "--kind", "trace", "--seed", ck.seed + shift, "--n", n], "gen --kind trace")
+def trace_lines(ck, n, shift=0, corpus=False):
+    """`m` request lines: (hand-written corpus sources first, when asked,) the product, n random programs."""
+    src_dir = os.path.join(CORPUS, "src")
+    if corpus and os.path.isdir(src_dir):
+        os.environ["NV_MEMTRACE_SRC_DIR"] = src_dir
+        ck.extra_cov["corpus_trace_sources"] = len(glob.glob(os.path.join(src_dir, "*.ns")))
+    try:
+        return nvh_lines(ck, ["gen", "--kind", "trace", "--seed", ck.seed + shift, "--n", n], "gen --kind trace")
+    finally:
+        os.environ.pop("NV_MEMTRACE_SRC_DIR", None)
 
 
 def hook_present(ck):
@@ -137,6 +154,26 @@ def classify(ck, label, reqs, res):
     n = nontrivial = reclaiming = reclaiming_nt = 0
     for i, r in enumerate(reqs):
         kind = r.split(" ", 1)[0]
+        if kind == "m":
+            # a traced program: non-trivial by the same rule, read off the implementation's event list
+            ck.count(f"{label}_m_lines")
+            ans = res["impl_lines"][i] if i < len(res["impl_lines"]) else ""
+            evs = ans.split(" ev=", 1)[1].split(",") if " ev=" in ans else []
+            freed, resets, reuse = set(), 0, 0
+            for e in evs:
+                w = e.split(":")
+                if w[0] == "reset":
+                    resets += 1
+                elif w[0] == "pfree" and len(w) == 3:
+                    freed.add((w[1], w[2]))
+                elif w[0] == "palloc" and len(w) == 3 and (w[1], w[2]) in freed:
+                    freed.discard((w[1], w[2]))
+                    reuse += 1
+            ck.count("trace_events", len(evs))
+            if resets >= 1 and reuse >= 1:
+                ck.count("trace_nontrivial")
+                ck.nontrivial_case(r.split(" ", 2)[1])
+            continue
         if kind != "d":
             ck.count(f"{label}_{kind}_lines")
             continue
@@ -242,7 +279,7 @@ def run(ck: Check):
         done, shift = 0, 0
         while done < n_trace:
             n = min(5000, n_trace - done)
-            stream(ck, "trace", trace_lines(ck, n, shift))
+            stream(ck, "trace", trace_lines(ck, n, shift, corpus=(done == 0)))
             done += n
             shift += 1000
     else:
